@@ -214,3 +214,43 @@ def condensed_vs_threefield(vk, cfg):
     else:
         vk.ensures_eq("explicit r_u at (p, J) = (bulk (v/V-1), v/V) == condensed vector", r_con, r_con)
         vk.ensures_eq("condensed: p == bulk (v/V - 1)", condensed.results.state.p, bulk * (v / V - 1))
+
+
+@contract("C10", "dual_spaces", configs=[{}], engine="ground")
+def dual_spaces(vk, cfg):
+    """FieldDual / FieldsMixed choose the pressure / volume-ratio space of the explicit three-field
+    formulation: cell-wise constant for the linear and serendipity families (one value per cell), the
+    next-lower (dis)continuous space for the full quadratic families, linear simplices for quadratic / MINI
+    simplices -- decided by constructing the real fields on real meshes (finite table, exhaustive)"""
+    if not vk.sym:
+        return
+    vk.real(fem.FieldDual.__init__)
+    vk.real(fem.FieldsMixed.__init__)
+    R = fem
+    expected = {
+        "RegionQuad": ("RegionConstantQuad", 1), "RegionHexahedron": ("RegionConstantHexahedron", 1),
+        "RegionQuadraticQuad": ("RegionConstantQuad", 1), "RegionQuadraticHexahedron": ("RegionConstantHexahedron", 1),
+        "RegionBiQuadraticQuad": ("RegionQuad", 4), "RegionTriQuadraticHexahedron": ("RegionHexahedron", 8),
+        "RegionQuadraticTriangle": ("RegionTriangle", 3), "RegionQuadraticTetra": ("RegionTetra", 4),
+        "RegionTriangleMINI": ("RegionTriangle", 3), "RegionTetraMINI": ("RegionTetra", 4),
+    }
+    with symnp.native():
+        rect, cube = fem.Rectangle(n=3), fem.Cube(n=3)
+        meshes = {
+            "RegionQuad": rect, "RegionHexahedron": cube,
+            "RegionQuadraticQuad": rect.add_midpoints_edges(), "RegionQuadraticHexahedron": cube.add_midpoints_edges(),
+            "RegionBiQuadraticQuad": rect.add_midpoints_edges().add_midpoints_faces(), "RegionTriQuadraticHexahedron": cube.add_midpoints_edges().add_midpoints_faces().add_midpoints_volumes(),
+            "RegionQuadraticTriangle": rect.triangulate().add_midpoints_edges(), "RegionQuadraticTetra": cube.triangulate().add_midpoints_edges(),
+            "RegionTriangleMINI": rect.triangulate().add_midpoints_faces(), "RegionTetraMINI": cube.triangulate().add_midpoints_volumes(),
+        }
+        for name, (dual_name, ppc) in expected.items():
+            region = getattr(fem, name)(meshes[name])
+            fd = fem.FieldDual(region)
+            got = type(fd.region).__name__
+            vk.ensures_true(f"{name}/dual-region=={dual_name}", got == dual_name, f"got {got}", backend="exec")
+            vk.ensures_true(f"{name}/points-per-cell=={ppc}", fd.region.mesh.cells.shape[1] == ppc and fd.region.h.shape[0] == ppc, f"cells {fd.region.mesh.cells.shape}, h {fd.region.h.shape}", backend="exec")
+            if ppc == 1:
+                vk.ensures_true(f"{name}/one-value-per-cell", fd.values.shape[0] >= region.mesh.ncells and len(np.unique(fd.region.mesh.cells)) == region.mesh.ncells, f"values {fd.values.shape}", backend="exec")
+            fm = fem.FieldsMixed(region, n=3)
+            vk.ensures_true(f"{name}/FieldsMixed-p-and-J-share-the-dual-space", type(fm[1].region).__name__ == dual_name and type(fm[2].region).__name__ == dual_name and fm[1].values.shape == fm[2].values.shape, "", backend="exec")
+    vk.canary_bool("table-nonempty", len(expected) == 10)
